@@ -182,45 +182,66 @@ Section CallsFx.
 Variable Q : nat -> Prop.
 Notation APq := (AP Q).
 
+(* as ParseCheckProofs.okr, with ExecuteErrors allowed too, at Q-positions: the repaired
+   validation reports an aggregate argument count with the error AggregatePlan.Init used *)
+Definition okx {A} (R : A -> Prop) (r : res A) : Prop :=
+  match r with
+  | Ok a => R a
+  | Err (ESyntax p) => Q p
+  | Err (EExec p) => Q p
+  | Err EOther => False
+  | Panic => False
+  | OutOfModel => True
+  end.
+
+Lemma okx_bind {A B} (RA : A -> Prop) (RB : B -> Prop) (r : res A) (k : A -> res B) :
+  okx RA r -> (forall a, RA a -> okx RB (k a)) -> okx RB (Value.bind r k).
+Proof. intros H Hk. destruct r as [a|[]| |]; cbn [Value.bind okx] in *; auto. Qed.
+
+Lemma okr_okx {A} (R : A -> Prop) (r : res A) : okr Q R r -> okx R r.
+Proof. destruct r as [a|[]| |]; cbn [okr okx]; try tauto; auto. Qed.
+
 Lemma calls_list_false_okr l : Forall APq l -> okr Q anyu (calls_list_false l).
 Proof.
   intros H. induction H as [|a l Ha Hl IH]; cbn [calls_list_false]; [exact I|].
   eapply okr_bind; [apply check_calls_ok; exact Ha|]. intros _ _. exact IH.
 Qed.
 
-Lemma check_calls_fx_ok : forall e, APq e -> okr Q anyu (check_calls_fx e).
+Lemma check_calls_fx_ok : forall e, APq e -> okx anyu (check_calls_fx e).
 Proof.
   induction e using CheckerProofs.expr_induction; intros HA;
-    try (apply (check_calls_ok Q _ true); exact HA).
+    try (apply okr_okx; apply (check_calls_ok Q _ true); exact HA).
   - cbn [check_calls_fx]. destruct (AP_bin_inv Q _ _ _ _ HA) as (_ & Hl & Hr).
-    eapply okr_bind; [exact (IHe1 Hl)|]. intros _ _. exact (IHe2 Hr).
+    eapply okx_bind; [exact (IHe1 Hl)|]. intros _ _. exact (IHe2 Hr).
   - cbn [check_calls_fx]. destruct (AP_call_inv Q _ _ _ HA) as (Hp & Hn & Hargs).
     destruct e; try exact Hp.
     destruct (call_name (EName pos s)) as [nm|]; [|exact I].
-    eapply (okr_bind Q anyu).
+    eapply (okx_bind anyu).
     + destruct (func_info nm) as [[[nargs varargs] t]|].
       * destruct (arity_bad nargs varargs (length args)); [exact Hp|exact I].
       * destruct (aggr_info nm) as [[nargs varargs]|]; [|exact Hp].
         destruct (arity_bad nargs varargs (length args)); [exact Hp|exact I].
-    + intros _ _. apply calls_list_false_okr. exact Hargs.
+    + intros _ _. apply okr_okx. apply calls_list_false_okr. exact Hargs.
 Qed.
 
-Lemma calls_fields_fx_ok l : names_ok Q l -> okr Q anyu (calls_fields_fx l).
+Lemma calls_fields_fx_ok l : names_ok Q l -> okx anyu (calls_fields_fx l).
 Proof.
   intros H. induction H as [|[n f] l Hf Hl IH]; cbn [calls_fields_fx]; [exact I|].
-  eapply okr_bind; [apply check_calls_fx_ok; exact Hf|]. intros _ _. exact IH.
+  eapply okx_bind; [apply check_calls_fx_ok; exact Hf|]. intros _ _. exact IH.
 Qed.
 
-Lemma check_stmt_calls_fx_ok s : cstmt_ok Q s -> okr Q anyu (check_stmt_calls_fx s).
+Lemma check_stmt_calls_fx_ok s : cstmt_ok Q s -> okx anyu (check_stmt_calls_fx s).
 Proof.
-  intros H. destruct s as [fields w order|pairs|keys|w]; try (apply check_stmt_calls_ok; exact H).
+  intros H. destruct s as [fields w order|pairs|keys|w];
+    try (apply okr_okx; apply check_stmt_calls_ok; exact H).
   cbn [check_stmt_calls_fx]. apply cstmt_ok_select in H. destruct H as (Hf & Hw & _).
-  eapply okr_bind; [apply check_calls_ok; exact Hw|]. intros _ _. apply calls_fields_fx_ok. exact Hf.
+  eapply okx_bind; [apply okr_okx; apply check_calls_ok; exact Hw|]. intros _ _. apply calls_fields_fx_ok. exact Hf.
 Qed.
 
-Lemma stmt_calls_ok fxa s : cstmt_ok Q s -> okr Q anyu (stmt_calls fxa s).
+Lemma stmt_calls_ok fxa s : cstmt_ok Q s -> okx anyu (stmt_calls fxa s).
 Proof.
-  intros H. unfold stmt_calls. destruct fxa; [apply check_stmt_calls_fx_ok|apply check_stmt_calls_ok]; exact H.
+  intros H. unfold stmt_calls.
+  destruct fxa; [apply check_stmt_calls_fx_ok|apply okr_okx; apply check_stmt_calls_ok]; exact H.
 Qed.
 
 End CallsFx.
@@ -333,7 +354,7 @@ Proof.
   pose proof (check_stmt_ok fo Q c Hc) as H1.
   destruct (Checker.check_stmt fo true c) as [c2|[p|p|]| |]; cbn [okr] in H1; try discriminate.
   - pose proof (stmt_calls_ok Q fxa c2 H1) as H2.
-    destruct (stmt_calls fxa c2) as [u|[p|p|]| |]; cbn [okr] in H2; try discriminate.
+    destruct (stmt_calls fxa c2) as [u|[p|p|]| |]; cbn [okx] in H2; try discriminate.
     + destruct (plan_oom c2); [discriminate|].
       destruct (plan_check s c2) as [| |z'] eqn:Ep.
       * discriminate.
@@ -352,7 +373,9 @@ Proof.
   assert (Hc : cstmt_ok Q c) by exact (Forall_incl Q _ _ (to_check_positions s c Et) H).
   pose proof (check_stmt_ok fo Q c Hc) as H1.
   destruct (Checker.check_stmt fo true c) as [c2|[p|p|]| |]; cbn [okr] in H1; try discriminate.
-  destruct (stmt_calls fxa c2) as [u|[p|p|]| |]; try discriminate.
+  pose proof (stmt_calls_ok Q fxa c2 H1) as H2.
+  destruct (stmt_calls fxa c2) as [u|[p|p|]| |]; cbn [okx] in H2; try discriminate;
+    [|intros E; inversion E; subst e; exact H2].
   destruct (plan_oom c2); [discriminate|].
   destruct (plan_check s c2) as [| |z']; try discriminate.
   pose proof (init_check_okp fo re fmt_v fxq Hre Q c2 H1) as H3.
@@ -445,7 +468,7 @@ Proof.
   pose proof (check_stmt_ok fo (fun _ => True) c Hc) as H1.
   destruct (Checker.check_stmt fo true c) as [c2|[p|p|]| |]; cbn [okr] in H1; try exact I; try contradiction.
   pose proof (stmt_calls_ok (fun _ => True) fxa c2 H1) as H2.
-  destruct (stmt_calls fxa c2) as [u|[p|p|]| |]; cbn [okr] in H2; try exact I; try contradiction.
+  destruct (stmt_calls fxa c2) as [u|[p|p|]| |]; cbn [okx] in H2; try exact I; try contradiction.
   destruct (plan_oom c2); [exact I|]. destruct (plan_check s c2); try exact I.
   pose proof (init_check_never_panics_lemma fo re fmt_v fxq Hre c2) as Hp.
   destruct (init_check c2); try exact I. contradiction.
@@ -494,8 +517,12 @@ Proof.
   destruct (parse_real fo (lex q)) as [s|z| |]; try reflexivity.
   unfold check_parsed_agg, check_parsed, plan_stage_agg, plan_stage, stmt_calls.
   destruct (to_check s) as [c|]; [|reflexivity].
-  destruct (Checker.check_stmt fo true c) as [c2|[p|p|]| |]; try reflexivity.
-  destruct (Checker.check_stmt_calls c2) as [u|[p|p|]| |]; try reflexivity.
+  assert (Hc : cstmt_ok (fun _ => True) c) by (unfold cstmt_ok; apply Forall_forall; auto).
+  pose proof (check_stmt_ok fo (fun _ => True) c Hc) as H1.
+  destruct (Checker.check_stmt fo true c) as [c2|[p|p|]| |]; cbn [okr] in H1; try reflexivity.
+  (* the pinned call validation returns no ExecuteError *)
+  pose proof (check_stmt_calls_ok (fun _ => True) c2 H1) as H2.
+  destruct (Checker.check_stmt_calls c2) as [u|[p|p|]| |]; cbn [okr] in H2; try reflexivity; try contradiction.
   destruct (plan_oom fo re fmt_v c2); [reflexivity|].
   destruct (plan_check fo re fmt_v s c2); reflexivity.
 Qed.
